@@ -12,6 +12,16 @@ None = the order in which the driver (or the library) built the table.
     apply_layout(df, lay)  -> a NEW DataFrame with that layout (the argument is left alone)
     same_column(a, b)      -> value equality of two columns of any dtype (NaN equals NaN)
     tag(lay)               -> suffix for the evidence's input distribution
+
+Row labels.  A cycle table made by the library carries the labels 0..n-1, but users hand over parts of tables without
+`reset_index`: `df.iloc[k:]`, `df[mask]`, a table re-labelled by hand, read back from a file with a string key, put
+together with `pd.concat`.  The rows are still the cycles in their order; only the labels differ.  No property speaks
+about row labels, so results are compared BY POSITION with the definition.
+
+    gen_rows(rng)          -> None | {'how': 'slice'|'mask'|'gaps'|'shuffled'|'str'|'dup', 'seed': int}
+    apply_rows(df, lay)    -> a table with the same rows in the same order and those labels ('slice' / 'mask' really
+                              cut the rows out of a longer table)
+    rows_tag(lay)          -> suffix for the evidence's input distribution
 """
 import random
 import numpy as np
@@ -91,3 +101,65 @@ def tag(lay):
     if not lay:
         return ''
     return ('/cols-' + lay.get('order', 'lib')) + ('+extra' if lay.get('extra') else '')
+
+
+ROW_STYLES = ['slice', 'slice', 'mask', 'mask', 'gaps', 'shuffled', 'str', 'dup']
+
+
+def gen_rows(rng, p=0.35):
+    if rng.random() >= p:
+        return None
+    return {'how': rng.choice(ROW_STYLES), 'seed': rng.randrange(1 << 30)}
+
+
+def apply_rows(df, lay):
+    """The same rows in the same order under non-default row labels (the argument is left alone)."""
+    n = len(df)
+    if not lay or n == 0:
+        return df
+    r = random.Random(lay.get('seed', 0))
+    how = lay['how']
+    if how in ('slice', 'mask'):
+        # a longer table (the extra rows repeat rows of this one, so every dtype is kept) from which the rows are
+        # taken out again the way a user does it, without reset_index
+        if how == 'slice':
+            keep = [False] * r.randint(1, 4) + [True] * n + [False] * r.randint(0, 2)
+        else:
+            keep = [False] * r.randint(0, 2)
+            for _ in range(n):
+                keep.extend([False] * r.choice([0, 0, 1, 2]))
+                keep.append(True)
+            keep.extend([False] * r.randint(0, 2))
+            if all(keep):
+                keep.insert(r.randrange(n + 1), False)
+        src, k = [], 0
+        for b in keep:
+            src.append(k if b else r.randrange(n))
+            k += 1 if b else 0
+        big = df.iloc[src].reset_index(drop=True)
+        if how == 'slice':
+            first = keep.index(True)
+            return big.iloc[first:first + n]
+        return big[np.array(keep, dtype=bool)]
+    if how == 'gaps':
+        labels, cur = [], r.randint(0, 5)
+        for _ in range(n):
+            labels.append(cur)
+            cur += r.choice([1, 1, 2, 5])
+    elif how == 'shuffled':
+        labels = list(range(n))
+        r.shuffle(labels)
+    elif how == 'str':
+        labels = ['cyc%02d' % i for i in range(n)]
+        if r.random() < 0.5:
+            r.shuffle(labels)
+    else:       # 'dup': two tables put together with pd.concat (labels start again in the middle)
+        k = r.randint(1, n)
+        labels = list(range(k)) + list(range(n - k))
+    out = df.copy()
+    out.index = labels
+    return out
+
+
+def rows_tag(lay):
+    return '/rows-' + lay['how'] if lay else ''
